@@ -14,6 +14,15 @@
 #include <sys/uio.h>
 #include "convert.h"
 
+#ifdef ZPE
+# define ENCODER mpt_encode_cobs_zpe
+# define ENCODER_R mpt_encode_cobs_zpe_r
+# define MAXLEN 0xDF
+#else
+# define ENCODER mpt_encode_cobs
+# define ENCODER_R mpt_encode_cobs_r
+# define MAXLEN 0xFF
+#endif
 #define CAP 268
 #define KMAX 3
 static uint8_t out[CAP], sh[CAP];
@@ -21,7 +30,7 @@ static uint8_t out[CAP], sh[CAP];
 void harness(void)
 {
 	MPT_STRUCT(encode_state) st = MPT_ENCODE_INIT;
-	size_t done0 = V_IN_RANGE("done", 0, 3), code0 = V_IN_RANGE("open_block", 0, 254), k = V_IN_RANGE("k", 1, KMAX), i;
+	size_t done0 = V_IN_RANGE("done", 0, 3), code0 = V_IN_RANGE("open_block", 0, MAXLEN - 1), k = V_IN_RANGE("k", 1, KMAX), i;
 	uint8_t in[KMAX];
 	struct iovec to, from;
 	ssize_t r;
@@ -35,9 +44,17 @@ void harness(void)
 	from.iov_base = in; from.iov_len = k;
 #ifdef TERMINATE
 	/* message termination from the same arbitrary state (e.g. earlier frames still in the buffer) */
-	r = mpt_encode_cobs(&st, &to, 0);
+# ifdef TAIL_INLINE
+	r = ENCODER_R(&st, &to, 0);
+# else
+	r = ENCODER(&st, &to, 0);
+# endif
 	pos = done0;
 	if (!code0) { sh[pos] = 1; sh[pos + 1] = 0; end = pos + 2; }
+# ifdef TAIL_INLINE
+	/* COBS/R: a last data byte greater than the block code replaces the code byte */
+	else if (code0 > 1 && sh[pos + code0 - 1] > code0 && sh[pos + code0 - 1] <= MAXLEN) { sh[pos] = sh[pos + code0 - 1]; sh[pos + code0 - 1] = 0; end = pos + code0; }
+# endif
 	else { sh[pos] = (uint8_t) code0; sh[pos + code0] = 0; end = pos + code0 + 1; }
 	V_ASSERT(r == 0, "termination succeeds with ample space");
 	V_ASSERT(st.done == end && st.scratch == 0, "the frame is appended behind the already finished data");
@@ -45,16 +62,24 @@ void harness(void)
 	V_WITNESS_END();
 	return;
 #endif
-	r = mpt_encode_cobs(&st, &to, &from);
+	r = ENCODER(&st, &to, &from);
 
 	/* reference step on the shadow buffer */
 	pos = done0; code = code0 ? code0 : 1; wp = pos + code;
 	for (i = 0; i < KMAX; i++) {
 		if (i >= k) break;
-		if (!in[i]) { sh[pos] = (uint8_t) code; pos += code; code = 1; wp = pos + 1; }
+		if (!in[i]) {
+#ifdef ZPE
+			/* zero pair: short block followed by two zeros inside the same push */
+			if (code > 1 && code < 32 && i + 1 < k && !in[i + 1]) { sh[pos] = (uint8_t) (code + MAXLEN); i++; }
+			else
+#endif
+			sh[pos] = (uint8_t) code;
+			pos += code; code = 1; wp = pos + 1;
+		}
 		else {
 			sh[wp++] = in[i]; code++;
-			if (code == 255) { sh[pos] = 255; pos += 255; code = 1; wp = pos + 1; }
+			if (code == MAXLEN) { sh[pos] = MAXLEN; pos += MAXLEN; code = 1; wp = pos + 1; }
 		}
 	}
 	sh[pos] = (uint8_t) code;
